@@ -15,7 +15,8 @@ def runModel (l : Line) (now : Int) : Go.R Claims :=
     | .ok (.expired c _) => .ok c
     | .error e => .error e
   | "assertion" =>
-    Gen.VerifyJWTAssertion now t { Issuer := str l "v.iss", MaxAgeIAT := int l "v.maxiat", Offset := int l "v.off", Storage := parseRegistry l }
+    let sc : Option (Claims → Go.R Unit) := if has l "v.subjcheck" then some (fun _ => .ok ()) else none
+    Gen.VerifyJWTAssertion now t { Issuer := str l "v.iss", MaxAgeIAT := int l "v.maxiat", Offset := int l "v.off", Storage := parseRegistry l, CheckSubject := sc }
   | _ => .error "bad-verifier"
 
 def step (l : Line) : String :=
